@@ -182,8 +182,22 @@ func (x *Exec) callStatic(c *callCtx, callee *ssa.Function, ci *closureInfo) {
 			x.inlineCall(c, callee, ci)
 			return
 		}
+		pre := x.allocNow(c.st)
 		x.havocCalleeEffects(c.n, c.st, callee)
 		c.freshResults(mangle(callee.Name()))
+		if x.prog.isolated[callee] {
+			// everything the results refer to was allocated by the call
+			for _, r := range c.res {
+				switch r.Sort {
+				case SSlice:
+					c.n.assume(mkOr(app("=", app("s.arr", r.S), "0"), app(">=", app("s.arr", r.S), pre)))
+				case SInt:
+					if _, isPtr := types.Unalias(r.T).Underlying().(*types.Pointer); isPtr {
+						c.n.assume(mkOr(app("=", r.S, "0"), app(">=", r.S, pre)))
+					}
+				}
+			}
+		}
 		return
 	}
 	// external function without a model
@@ -206,6 +220,9 @@ func (x *Exec) canInline(fr *Frame, callee *ssa.Function) bool {
 	limit := 300
 	if fr.depth >= 1 {
 		limit = 120
+	}
+	if len(analyseLoops(callee).headers) > 0 {
+		return false // loops are only handled in functions under contract; the write-set summary is used instead
 	}
 	if size > limit || x.inlined+size > 2500 {
 		return false
